@@ -1,5 +1,6 @@
 """Check driver: plan shards, run each in a fresh interpreter, merge, judge, write evidence."""
 import argparse
+import re
 import concurrent.futures as cf
 import importlib
 import json
@@ -103,6 +104,15 @@ def judge(mod, prop, a, specs, outs, wall):
     for spec, o in zip(specs, outs):
         if o["status"] != "ok":
             bad_shards.append({"shard": spec.get("name"), "status": o["status"], "error": (o.get("error") or "")[-1500:]})
+            # the interpreter itself killed by a memory error (glibc heap check, segmentation fault, ...) while running the code under
+            # test on generated input is a violation with the shard as the replay, not "inconclusive"; a kill from outside (SIGKILL,
+            # SIGTERM: out of memory, watchdog) stays inconclusive
+            m_ = re.match(r"exit=-(4|6|7|8|11)\b", o.get("error") or "") if o["status"] == "died" else None
+            if m_:
+                k_ = "native-crash/%s/signal-%s" % (spec.get("name"), m_.group(1))
+                viol_count[k_] = viol_count.get(k_, 0) + 1
+                viol.setdefault(k_, []).append({"what": "shard %s: the interpreter died with signal %s: %s" % (spec.get("name"), m_.group(1), (o.get("error") or "")[-300:].replace("\n", " | ")),
+                                               "witness": {"error": (o.get("error") or "")[-1500:]}, "spec": spec})
         ev += o.get("evaluations", 0)
         sigs.update(o.get("sigs", []))
         for s in o.get("samples", []):
